@@ -549,6 +549,8 @@ class StmtMixin:
                     if b:
                         names.add(b[0]) if len(b) == 1 else fields.add(b)
                 elif isinstance(n, ast.Call):
+                    if isinstance(n.func, ast.Name) and n.func.id == "next" and n.args and isinstance(n.args[0], ast.Name):
+                        names.add(n.args[0].id)      # next(it) consumes the iterator held in that variable
                     if isinstance(n.func, ast.Attribute):
                         b = _base_name(n.func.value)
                         if b:
